@@ -1,59 +1,81 @@
-(** Model of the attribute module's write paths, its two lookups and the begin-block expiry
-    sweep, together with the part of the name module that decides "who owns a name"
-    (property C16).
+(** Model of the attribute module's write paths, its lookups (keeper level and gRPC queries) and
+    the begin-block expiry sweep, COMPOSED with the model of the name module (Name/Name.v, the
+    model behind property C15) for everything that decides "who owns a name"  (property C16).
 
     Go sources transcribed here (function by function, branch by branch):
       x/attribute/keeper/keeper.go      SetAttribute, UpdateAttribute, UpdateAttributeExpiration,
                                         DeleteAttribute (by name / distinct by value),
-                                        PurgeAttribute, AccountsByAttribute,
+                                        PurgeAttribute, AccountsByAttribute, GetAttributes,
+                                        GetAccountData, SetAccountData,
                                         IncAttrNameAddressLookup, DecAttrNameAddressLookup,
                                         addAttributeExpireLookup, deleteAttributeExpireLookup,
-                                        DeleteExpiredAttributes, ValidateExpirationDate
+                                        DeleteExpiredAttributes (with its [limit] argument),
+                                        ValidateExpirationDate, GetMaxValueLength
       x/attribute/keeper/msg_server.go  AddAttribute, UpdateAttribute, UpdateAttributeExpiration,
-                                        DeleteAttribute, DeleteDistinctAttribute
-      x/attribute/types/keys.go         AddrAttributeKey, AttributeExpireKey,
+                                        DeleteAttribute, DeleteDistinctAttribute, SetAccountData,
+                                        UpdateParams
+      x/attribute/keeper/query_server.go Attribute, Attributes, Scan, AttributeAccounts, AccountData
+                                        (the filter; pagination is the SDK's FilteredPaginate)
+      x/attribute/types/msgs.go         ValidateBasic of the seven messages
+      x/attribute/types/attribute.go    ValidateBasic, ValidateAttributeAddress
+      x/attribute/types/keys.go         AddrAttributeKey, AttributeExpireKey, GetNameKeyBytes,
                                         AttributeNameAddrKeyPrefix, GetAttributeExpireTimePrefix
-      x/attribute/abci.go               BeginBlocker
-      x/name/keeper/msg_server.go       BindName, ModifyName, DeleteName (which purges)
-      x/name/keeper/keeper.go           ResolvesTo, NameExists
+      x/attribute/abci.go               BeginBlocker (limit MaxExpiredAttributionCount = 100000)
+      x/name/keeper/msg_server.go       BindName, ModifyName, DeleteName: these ARE Name/Name.v's
+                                        [bind], [modify], [delete]; DeleteName's final call of
+                                        PurgeAttribute is added here
+      x/name/keeper/keeper.go           ResolvesTo, NameExists, Normalize, GetRecordByName: Name/Name.v's
+                                        [resolves_to], [name_exists], [normalize], [get_record]
 
-    State of the attribute store, as three maps:
-      records   AddrAttributeKey = 0x02 | len,account | sha256(name) | sha256(value)  -> Attribute
-      counters  0x03 | sha256(name) | len,account -> uint64   (key absent = 0 here)
-      queue     0x04 | unix seconds (8 bytes BE) | len,account | sha256(name) | sha256(value) -> {}
-    Accounts, names and values are interned integers.  ASSUMED: SHA-256 is injective on the
-    names and values that occur (so a record key is the triple (account, name, value) itself);
-    a name is the interned id of its NORMALISED form (lower case, every segment trimmed) and the
-    attribute messages additionally carry the SPELLING class [sp] of the name string in the
-    request (0 canonical; 1 spaces around the whole name; 2 letter case differs, possibly with
-    outer spaces; 3 spaces inside, next to a dot; 4 inside spaces and case) — see "Spelling"
-    below for which code path normalises and which uses the raw string; values are short decimal numerals, which
-    are valid for the types JSON(2) String(3) Int(5) Float(6) Proto(7) Bytes(8) and invalid for
-    UUID(1) Uri(4) and Unspecified(0) ([type_ok]); the value length limit is not reached; all
-    times are whole seconds (keys hold [Unix()]); uint64 counters do not overflow; protobuf
-    (un)marshalling never fails; fewer than MaxExpiredAttributionCount = 100000 queue entries fall
-    due in one block (the [limit] cut-off of DeleteExpiredAttributes is not modelled).
+    Names are byte strings (ASCII, see Name/Name.v) exactly as sent in the request; nothing about
+    spelling is assumed: the model applies the same normalisations as the code at the same places.
+    There are TWO key functions for a name:
+      - the name module's key, SHA-256 of [name_key_preimage] (segments trimmed, reversed,
+        concatenated WITHOUT separator, case sensitive) — used by ResolvesTo / NameExists;
+        the model keys name records by the pre-image itself ([idh]), so names whose pre-images
+        coincide (aa.bbcc / ccaa.bb, C15's known finding) share a record here as in the code;
+      - the attribute module's GetNameKeyBytes, SHA-256 of the reversed segments (joined with
+        dots) of ToLower(TrimSpace(name)) — used in the record key, the per-name counter key and
+        the expiration queue key.  Reversal of the dot-separated segments is a bijection on
+        strings, so this key is the injective image of [ank name] = ToLower(TrimSpace(name)).
+    ASSUMED: SHA-256 is injective on the [ank] images and on the values that occur, so the
+    attribute record key is the triple (account, ank name, value) itself.
 
-    Name ownership is the abstract map [s_owner : name -> option owner]; of the name module only
-    the acceptance conditions of bind (by the owner of a restricted parent, so: accepted iff the
-    name is free), modify (authority is the governance account [gov] or the current owner) and
-    delete (the signer is the current owner; then DeleteRecord; then PurgeAttribute) are
-    transcribed.  [s_acct] says which addresses have an auth account (every keeper entry point
-    requires one for the caller).
+    Accounts are abstract ids [N] (as in Name/Name.v; 0 = governance authority).  [c_kind] says
+    what kind of address an id stands for: 0 an account address, 1 a scope metadata address (both
+    are valid attribute holders), anything else is not a valid attribute address (e.g. a session
+    or record metadata address).  [c_has_acct] says which ids have an auth account.
+    Values are interned integers with a byte length [c_vlen]; they are decimal numerals without
+    surrounding white space (NewAttribute's trimming is the identity), valid for the types
+    JSON(2) String(3) Int(5) Float(6) Proto(7) Bytes(8), invalid for UUID(1) Uri(4)
+    Unspecified(0) ([type_ok]).  Times are whole seconds; uint64 counters do not overflow;
+    protobuf (un)marshalling never fails.
 
-    An operation that errors returns the OLD state (tx rollback).  No proofs in this file. *)
-From Coq Require Import ZArith List Bool.
+    The store's iteration order matters in exactly two places and is supplied by the harness as
+    rank functions computed from the real key bytes: the order in which DeleteExpiredAttributes
+    walks the queue entries that are due (time, then length-prefixed account bytes [c_arank],
+    name hash [c_nrank], value hash [c_vrank]) — it decides WHICH entries a finite [limit] cuts
+    off — and "the first" accountdata attribute returned by GetAccountData.
+
+    An operation that errors or panics returns the OLD state (tx rollback).  No proofs here. *)
+From Coq Require Import ZArith NArith List Bool String Ascii.
+From PV Require Import Name.Name.
 Import ListNotations.
 Open Scope Z_scope.
 
+(** the hash of Name/Name.v instantiated with the identity: name records keyed by pre-image *)
+Definition idh (s : string) : string := s.
+
 (** ** Records, keys *)
-Definition key := (Z * Z * Z)%type.           (* account, name, value(hash) *)
-Record attr := { a_acct : Z; a_name : Z; a_val : Z; a_type : Z; a_exp : option Z }.
-Definition akey (r : attr) : key := (a_acct r, a_name r, a_val r).
+Definition key := (N * string * Z)%type.        (* account, ank name, value(hash) *)
+Record attr := { a_acct : N; a_name : string; a_val : Z; a_type : Z; a_exp : option Z }.
+(* GetNameKeyBytes up to the injective reversal + hash: ToLower(TrimSpace(name)) *)
+Definition ank (name : string) : string := to_lower (trim name).
+Definition akey (r : attr) : key := (a_acct r, ank (a_name r), a_val r).
 
 Definition key_eqb (k1 k2 : key) : bool :=
   let '(a1, n1, v1) := k1 in let '(a2, n2, v2) := k2 in
-  (a1 =? a2) && (n1 =? n2) && (v1 =? v2).
+  N.eqb a1 a2 && String.eqb n1 n2 && (v1 =? v2).
 Definition oz_eqb (x y : option Z) : bool :=
   match x, y with
   | Some a, Some b => a =? b
@@ -63,26 +85,52 @@ Definition oz_eqb (x y : option Z) : bool :=
 Definition entry := (Z * key)%type.            (* expiration time, record key *)
 Definition entry_eqb (x y : entry) : bool := (fst x =? fst y) && key_eqb (snd x) (snd y).
 
+(** ** Configuration: everything that does not change during a history *)
+Record config := {
+  c_params : params;                     (* name module params (segment lengths, levels) *)
+  c_genesis : list (string * N * bool);  (* names bound before the history (SetNameRecord): name, owner, restricted *)
+  c_has_acct : N -> bool;                (* authKeeper.GetAccount(addr) != nil *)
+  c_kind : N -> Z;                       (* 0 account address, 1 scope address, else invalid holder *)
+  c_vlen : Z -> Z;                       (* len(value) *)
+  c_arank : N -> Z;                      (* order of the length-prefixed account bytes *)
+  c_nrank : string -> Z;                 (* order of GetNameKeyBytes, argument already [ank]ed *)
+  c_vrank : Z -> Z;                      (* order of sha256(value) *)
+  c_maxlen0 : Z }.                       (* Params.MaxValueLength at the start *)
+
+Definition gov : N := 0%N.                (* the governance module account = Name.gov_authority *)
+Definition mod_addr : N := 8%N.           (* the attribute module account, owner of "accountdata" *)
+Definition account_data_name : string := "accountdata".
+
 Record state := {
   s_now : Z;                      (* ctx.BlockTime().Unix() *)
-  s_acct : Z -> bool;             (* authKeeper.GetAccount(addr) != nil *)
-  s_owner : Z -> option Z;        (* name record: name -> address *)
+  s_names : Name.state;           (* the name module's store *)
+  s_maxlen : Z;                   (* Params.MaxValueLength *)
   s_recs : list attr;             (* attribute records, at most one per key *)
-  s_cnt : Z -> Z -> Z;            (* name -> account -> lookup counter *)
+  s_cnt : string -> N -> Z;       (* ank name -> account -> lookup counter (key absent = 0) *)
   s_queue : list entry }.         (* expiration queue (a set) *)
 
-Definition init (t0 : Z) (accts : Z -> bool) : state :=
-  {| s_now := t0; s_acct := accts; s_owner := fun _ => None; s_recs := [];
+Definition genesis_names (cfg : config) : Name.state :=
+  fold_left (fun ns x => let '(n, o, r) := x in
+                         match set_name_record idh (c_params cfg) ns n o r with
+                         | Some ns' => ns'
+                         | None => ns
+                         end) (c_genesis cfg) Name.init.
+
+Definition init (cfg : config) (t0 : Z) : state :=
+  {| s_now := t0; s_names := genesis_names cfg; s_maxlen := c_maxlen0 cfg; s_recs := [];
      s_cnt := fun _ _ => 0; s_queue := [] |}.
 
-Definition set_owner (s : state) (f : Z -> option Z) : state :=
-  {| s_now := s_now s; s_acct := s_acct s; s_owner := f; s_recs := s_recs s;
+Definition set_names (s : state) (ns : Name.state) : state :=
+  {| s_now := s_now s; s_names := ns; s_maxlen := s_maxlen s; s_recs := s_recs s;
      s_cnt := s_cnt s; s_queue := s_queue s |}.
-Definition set_store (s : state) (recs : list attr) (cnt : Z -> Z -> Z) (q : list entry) : state :=
-  {| s_now := s_now s; s_acct := s_acct s; s_owner := s_owner s; s_recs := recs;
+Definition set_store (s : state) (recs : list attr) (cnt : string -> N -> Z) (q : list entry) : state :=
+  {| s_now := s_now s; s_names := s_names s; s_maxlen := s_maxlen s; s_recs := recs;
      s_cnt := cnt; s_queue := q |}.
 Definition set_now (s : state) (t : Z) : state :=
-  {| s_now := t; s_acct := s_acct s; s_owner := s_owner s; s_recs := s_recs s;
+  {| s_now := t; s_names := s_names s; s_maxlen := s_maxlen s; s_recs := s_recs s;
+     s_cnt := s_cnt s; s_queue := s_queue s |}.
+Definition set_maxlen (s : state) (m : Z) : state :=
+  {| s_now := s_now s; s_names := s_names s; s_maxlen := m; s_recs := s_recs s;
      s_cnt := s_cnt s; s_queue := s_queue s |}.
 
 (** store.Get(attrKey) / store.Delete(attrKey) *)
@@ -91,13 +139,14 @@ Definition find_rec (k : key) (recs : list attr) : option attr :=
 Definition remove_key (k : key) (recs : list attr) : list attr :=
   filter (fun r => negb (key_eqb (akey r) k)) recs.
 
-(** ** The name -> account lookup counters *)
-Definition cnt_upd (f : Z -> Z -> Z) (n a v : Z) : Z -> Z -> Z :=
-  fun n' a' => if (n' =? n) && (a' =? a) then v else f n' a'.
+(** ** The name -> account lookup counters (keyed by GetNameKeyBytes(name), i.e. [ank name]) *)
+Definition cnt_upd (f : string -> N -> Z) (n : string) (a : N) (v : Z) : string -> N -> Z :=
+  fun n' a' => if String.eqb n' n && N.eqb a' a then v else f n' a'.
 (* IncAttrNameAddressLookup: missing key counts as 0 *)
-Definition cnt_inc (f : Z -> Z -> Z) (n a : Z) : Z -> Z -> Z := cnt_upd f n a (f n a + 1).
+Definition cnt_inc (f : string -> N -> Z) (n : string) (a : N) : string -> N -> Z :=
+  cnt_upd f n a (f n a + 1).
 (* DecAttrNameAddressLookup: no key: nothing; value <= 1: key deleted; else value - 1 *)
-Definition cnt_dec (f : Z -> Z -> Z) (n a : Z) : Z -> Z -> Z :=
+Definition cnt_dec (f : string -> N -> Z) (n : string) (a : N) : string -> N -> Z :=
   let c := f n a in
   if c <=? 0 then f else if c <=? 1 then cnt_upd f n a 0 else cnt_upd f n a (c - 1).
 
@@ -120,62 +169,74 @@ Definition q_del (q : list entry) (r : attr) : list entry :=
 (* ValidateExpirationDate: error iff an expiration is given and lies before the block time *)
 Definition exp_ok (now : Z) (e : option Z) : bool :=
   match e with Some t => negb (t <? now) | None => true end.
-(* Attribute.ValidateBasic on the generated values (see header) *)
+(* ValidAttributeType && isValidValueForType on the generated values (see header) *)
 Definition type_ok (ty : Z) : bool :=
   (ty =? 2) || (ty =? 3) || (ty =? 5) || (ty =? 6) || (ty =? 7) || (ty =? 8).
-(* nameKeeper.ResolvesTo / NameExists *)
-Definition resolves (s : state) (n c : Z) : bool :=
-  match s_owner s n with Some o => o =? c | None => false end.
-Definition name_exists (s : state) (n : Z) : bool :=
-  match s_owner s n with Some _ => true | None => false end.
-Definition gov : Z := 0.
+(* ValidateAttributeAddress *)
+Definition holder_ok (cfg : config) (a : N) : bool := (c_kind cfg a =? 0) || (c_kind cfg a =? 1).
+(* sdk.AccAddressFromBech32 succeeds *)
+Definition plain_acct (cfg : config) (a : N) : bool := c_kind cfg a =? 0.
+(* nameKeeper.ResolvesTo / NameExists / Normalize, on the name exactly as given *)
+Definition resolves (s : state) (name : string) (c : N) : bool := resolves_to idh (s_names s) name c.
+Definition nexists (s : state) (name : string) : bool := name_exists idh (s_names s) name.
+Definition norm (cfg : config) (name : string) : option string := normalize (c_params cfg) name.
 
-(** ** Spelling of the name in a request
-    SetAttribute and UpdateAttributeExpiration replace the name by nameKeeper.Normalize(name)
-    before anything else, so every spelling behaves like the canonical one.
-    UpdateAttribute normalises the name for the ownership check and for the new record, but
-    looks the existing record up under AddrAttributeKey(originalAttribute) with the RAW name;
-    GetNameKeyBytes lower-cases and trims only the WHOLE name, so a spelling with inside spaces
-    gives another key: nothing found.
-    DeleteAttribute uses the raw name throughout: ResolvesTo / NameExists go through the name
-    module's key, which trims every segment but is case sensitive (another case = "no such
-    name", the permission check is skipped); the scan prefix is GetNameKeyBytes(raw) (inside
-    spaces: another prefix); and a scanned record counts only if attr.Name == raw name, i.e.
-    only for the canonical spelling. *)
-Definition sp_case (sp : Z) : bool := (sp =? 2) || (sp =? 4).
-Definition sp_inner (sp : Z) : bool := (sp =? 3) || (sp =? 4).
-
-(** ** Keeper operations.  [None] = error. *)
+(** ** Keeper operations.  [None] = error or panic. *)
 
 (* The tail of SetAttribute (also the second half of UpdateAttribute): store.Set(key, attr);
    IncAttrNameAddressLookup; addAttributeExpireLookup.  An existing record under the same key
    is overwritten; its old queue entry is NOT removed and the counter is incremented again. *)
 Definition put (s : state) (r : attr) : state :=
   set_store s (r :: remove_key (akey r) (s_recs s))
-              (cnt_inc (s_cnt s) (a_name r) (a_acct r))
+              (cnt_inc (s_cnt s) (ank (a_name r)) (a_acct r))
               (q_add (s_queue s) r).
 
-Definition set_attribute (s : state) (c : Z) (r : attr) : option state :=
-  if exp_ok (s_now s) (a_exp r) && type_ok (a_type r) && s_acct s c && resolves s (a_name r) c
-  then Some (put s r) else None.
+(* Attribute.ValidateBasic: name not blank, valid holder address, valid type and value *)
+Definition attr_basic (cfg : config) (a : N) (name : string) (ty : Z) : bool :=
+  negb (blank name) && holder_ok cfg a && type_ok ty.
+
+(* keeper.SetAttribute: expiration, ValidateBasic, value length, Normalize, owner account,
+   ResolvesTo on the NORMALISED name; the record is stored under the normalised name *)
+Definition set_attribute (cfg : config) (s : state) (c a : N) (name : string) (v ty : Z) (e : option Z)
+  : option state :=
+  if exp_ok (s_now s) e && attr_basic cfg a name ty && (c_vlen cfg v <=? s_maxlen s) then
+    match norm cfg name with
+    | Some n =>
+        if c_has_acct cfg c && resolves s n c
+        then Some (put s {| a_acct := a; a_name := n; a_val := v; a_type := ty; a_exp := e |})
+        else None
+    | None => None
+    end
+  else None.
 
 (* store.Delete(key); DecAttrNameAddressLookup; and, when [dq], deleteAttributeExpireLookup —
    the per-record body of UpdateAttribute (first half), DeleteAttribute, the sweep ([dq = true])
    and PurgeAttribute ([dq = false]: purge leaves the queue entries behind). *)
 Definition del_rec (dq : bool) (s : state) (r : attr) : state :=
   set_store s (remove_key (akey r) (s_recs s))
-              (cnt_dec (s_cnt s) (a_name r) (a_acct r))
+              (cnt_dec (s_cnt s) (ank (a_name r)) (a_acct r))
               (if dq then q_del (s_queue s) r else s_queue s).
 
-Definition update_attribute (s : state) (c a n ov oty nv nty sp : Z) : option state :=
-  if type_ok oty && type_ok nty && s_acct s c && resolves s n c then
-    if sp_inner sp then None else   (* raw-name key: no such record *)
-    match find_rec (a, n, ov) (s_recs s) with
-    | Some cur =>
-        if a_type cur =? oty then
-          (* the replacement carries no expiration: MsgUpdateAttributeRequest has none *)
-          Some (put (del_rec true s cur)
-                    {| a_acct := a; a_name := n; a_val := nv; a_type := nty; a_exp := None |})
+(* keeper.UpdateAttribute (after MsgUpdateAttributeRequest.ValidateBasic, which validates the
+   update attribute): both attributes validated, length of the new value, Normalize (both names
+   are the same request field), owner account, ResolvesTo on the normalised name; the existing
+   record is looked up under AddrAttributeKey(originalAttribute), i.e. with the RAW name, of
+   which GetNameKeyBytes lower-cases and trims only the whole. *)
+Definition update_attribute (cfg : config) (s : state) (c a : N) (name : string) (ov oty nv nty : Z)
+  : option state :=
+  if attr_basic cfg a name oty && type_ok nty && (c_vlen cfg nv <=? s_maxlen s) then
+    match norm cfg name with
+    | Some n =>
+        if c_has_acct cfg c && resolves s n c then
+          match find_rec (a, ank name, ov) (s_recs s) with
+          | Some cur =>
+              if a_type cur =? oty then
+                (* the replacement carries no expiration: MsgUpdateAttributeRequest has none *)
+                Some (put (del_rec true s cur)
+                          {| a_acct := a; a_name := n; a_val := nv; a_type := nty; a_exp := None |})
+              else None
+          | None => None
+          end
         else None
     | None => None
     end
@@ -184,54 +245,103 @@ Definition update_attribute (s : state) (c a n ov oty nv nty sp : Z) : option st
 Definition with_exp (r : attr) (e : option Z) : attr :=
   {| a_acct := a_acct r; a_name := a_name r; a_val := a_val r; a_type := a_type r; a_exp := e |}.
 
-Definition update_expiration (s : state) (c a n v : Z) (e : option Z) : option state :=
-  if exp_ok (s_now s) e && s_acct s c && resolves s n c then
-    match find_rec (a, n, v) (s_recs s) with
-    | Some cur =>
-        let cur' := with_exp cur e in
-        Some (set_store s (cur' :: remove_key (akey cur) (s_recs s)) (s_cnt s)
-                        (q_add (q_del (s_queue s) cur) cur'))
+(* keeper.UpdateAttributeExpiration (after its message's ValidateBasic: name not blank, valid
+   holder address): the record is looked up under the NORMALISED name *)
+Definition update_expiration (cfg : config) (s : state) (c a : N) (name : string) (v : Z) (e : option Z)
+  : option state :=
+  if exp_ok (s_now s) e && negb (blank name) && holder_ok cfg a then
+    match norm cfg name with
+    | Some n =>
+        if c_has_acct cfg c && resolves s n c then
+          match find_rec (a, ank n, v) (s_recs s) with
+          | Some cur =>
+              let cur' := with_exp cur e in
+              Some (set_store s (cur' :: remove_key (akey cur) (s_recs s)) (s_cnt s)
+                              (q_add (q_del (s_queue s) cur) cur'))
+          | None => None
+          end
+        else None
     | None => None
     end
   else None.
 
-(* the ownership gate shared by DeleteAttribute and PurgeAttribute: the caller must be the
-   owner, unless the name does not exist (any more), in which case nothing is enforced *)
-Definition may_remove (s : state) (c n : Z) : bool :=
-  s_acct s c && (resolves s n c || negb (name_exists s n)).
+(* the ownership gate shared by DeleteAttribute and PurgeAttribute, evaluated on the name AS
+   GIVEN: the caller must be the owner, unless the name does not exist (any more), in which case
+   nothing is enforced *)
+Definition may_remove (cfg : config) (s : state) (c : N) (name : string) : bool :=
+  c_has_acct cfg c && (resolves s name c || negb (nexists s name)).
 
-(* DeleteAttribute's gate evaluated on the raw name *)
-Definition may_remove_raw (s : state) (c n sp : Z) : bool :=
-  let resolves_raw := if sp_case sp then false else resolves s n c in
-  let exists_raw := if sp_case sp then false else name_exists s n in
-  s_acct s c && (resolves_raw || negb exists_raw).
+(* keeper.DeleteAttribute: the raw name throughout — the gate goes through the name module's
+   key (every segment trimmed, case sensitive), the scan prefix is GetNameKeyBytes(raw), and a
+   scanned record counts only if attr.Name == raw name *)
+Definition delete_matches (a : N) (name : string) (ov : option Z) (r : attr) : bool :=
+  N.eqb (a_acct r) a && String.eqb (ank (a_name r)) (ank name) && String.eqb (a_name r) name &&
+  match ov with Some v => a_val r =? v | None => true end.
 
-Definition delete_attribute (s : state) (c a n : Z) (ov : option Z) (sp : Z) : option state :=
-  if may_remove_raw s c n sp then
-    let del := filter (fun r => (a_acct r =? a) && (a_name r =? n) &&
-                                match ov with Some v => a_val r =? v | None => true end &&
-                                (* prefix scan by GetNameKeyBytes(raw); attr.Name == raw *)
-                                (negb (sp_inner sp) && (sp =? 0)))
-                      (s_recs s) in
-    match del with
+Definition delete_attribute_k (cfg : config) (s : state) (c a : N) (name : string) (ov : option Z)
+  : option state :=
+  if may_remove cfg s c name then
+    match filter (delete_matches a name ov) (s_recs s) with
     | [] => None
-    | _ => Some (fold_left (del_rec true) del s)
+    | del => Some (fold_left (del_rec true) del s)
     end
   else None.
 
-(* PurgeAttribute: for every account AccountsByAttribute lists (counter key present), every
-   record of (account, name) is deleted and the counter decremented once per record.  The
-   records to delete are exactly those of that name whose account has a counter key. *)
-Definition purge_attribute (s : state) (c n : Z) : option state :=
-  if may_remove s c n then
-    let del := filter (fun r => (a_name r =? n) && (0 <? s_cnt s n (a_acct r))) (s_recs s) in
+(* MsgDeleteAttributeRequest / MsgDeleteDistinctAttributeRequest: ValidateBasic (name not blank,
+   valid holder address) + the message server's own ValidateAttributeAddress *)
+Definition delete_attribute (cfg : config) (s : state) (c a : N) (name : string) (ov : option Z)
+  : option state :=
+  if negb (blank name) && holder_ok cfg a then delete_attribute_k cfg s c a name ov else None.
+
+(* keeper.PurgeAttribute, name as given: for every account AccountsByAttribute lists (counter
+   key under GetNameKeyBytes(name) present), every record under the prefix
+   (account, GetNameKeyBytes(name)) is deleted and the counter decremented once per record.
+   No comparison of the stored name.  A blank name panics in GetNameKeyBytes. *)
+Definition purge_attribute (cfg : config) (s : state) (c : N) (name : string) : option state :=
+  if may_remove cfg s c name && negb (blank name) then
+    let del := filter (fun r => String.eqb (ank (a_name r)) (ank name) &&
+                                (0 <? s_cnt s (ank name) (a_acct r))) (s_recs s) in
     Some (fold_left (del_rec false) del s)
   else None.
 
-(** DeleteExpiredAttributes: the queue entries with time < block time (the iterator's end bound
-    is exclusive) are collected first, then processed one by one: an entry whose record is gone,
-    or whose record's stored expiration is not the entry's time (a stale entry), is just
-    dropped; otherwise the record is deleted and the counter decremented. *)
+(** keeper.GetAttributes: the name is lower-cased and trimmed as a whole, must exist in the name
+    module, prefix scan, predicate strings.EqualFold(attr.Name, name). *)
+Definition get_attributes (s : state) (a : N) (name : string) : option (list attr) :=
+  let n := ank name in
+  match get_record idh (s_names s) n with
+  | None => None
+  | Some _ =>
+      Some (filter (fun r => N.eqb (a_acct r) a && String.eqb (ank (a_name r)) (ank n) &&
+                             String.eqb (to_lower (a_name r)) (to_lower n)) (s_recs s))
+  end.
+
+(** keeper.SetAccountData (reached from MsgSetAccountDataRequest, [via_msg], whose ValidateBasic
+    wants a plain account address, and from the metadata module for scopes): existing
+    accountdata attributes are deleted as the module account, then the new value (if not empty;
+    [v = 0] stands for the empty string) is set as a String attribute without expiration. *)
+Definition set_account_data (cfg : config) (s : state) (via_msg : bool) (a : N) (v : Z) : option state :=
+  if via_msg && negb (plain_acct cfg a) then None else
+  match get_attributes s a account_data_name with
+  | None => None
+  | Some ex =>
+      let s1 := match ex with
+                | [] => Some s
+                | _ => delete_attribute_k cfg s mod_addr a account_data_name None
+                end in
+      match s1 with
+      | None => None
+      | Some s1 => if v =? 0 then Some s1
+                   else set_attribute cfg s1 mod_addr a account_data_name v 3 None
+      end
+  end.
+
+(** ** DeleteExpiredAttributes(ctx, limit)
+    The queue entries with time < block time (the iterator's end bound is exclusive) are
+    collected first, in store order; then processed one by one: an entry whose record exists
+    but whose stored expiration is not the entry's time (a stale entry) is dropped and the loop
+    CONTINUES without looking at the limit; an entry whose record is gone is dropped; otherwise
+    the record is deleted, the counter decremented, [count] incremented and the entry dropped.
+    After a non-stale entry: [if limit != 0 && count >= limit { break }]. *)
 Definition sweep_entry (s : state) (x : entry) : state :=
   let '(e, k) := x in
   match find_rec k (s_recs s) with
@@ -242,61 +352,140 @@ Definition sweep_entry (s : state) (x : entry) : state :=
   | None => set_store s (s_recs s) (s_cnt s) (q_remove x (s_queue s))
   end.
 
-Definition due (t : Z) (q : list entry) : list entry := filter (fun x => fst x <? t) q.
-Definition sweep (s : state) : state := fold_left sweep_entry (due (s_now s) (s_queue s)) s.
+(* does processing [x] in [s] delete a record (count++), and is [x] a stale entry (continue)? *)
+Definition sweep_deletes (s : state) (x : entry) : bool :=
+  match find_rec (snd x) (s_recs s) with
+  | Some r => oz_eqb (a_exp r) (Some (fst x))
+  | None => false
+  end.
+Definition sweep_stale (s : state) (x : entry) : bool :=
+  match find_rec (snd x) (s_recs s) with
+  | Some r => negb (oz_eqb (a_exp r) (Some (fst x)))
+  | None => false
+  end.
 
-(** AccountsByAttribute restricted to a given finite universe of accounts. *)
-Definition accounts_by_attribute (s : state) (n : Z) (universe : list Z) : list Z :=
-  filter (fun a => 0 <? s_cnt s n a) universe.
+Fixpoint sweep_loop (limit count : Z) (l : list entry) (s : state) : state :=
+  match l with
+  | [] => s
+  | x :: t =>
+      let count' := if sweep_deletes s x then count + 1 else count in
+      let s' := sweep_entry s x in
+      if negb (sweep_stale s x) && negb (limit =? 0) && (limit <=? count') then s'
+      else sweep_loop limit count' t s'
+  end.
+
+(* store order of the queue keys *)
+Definition entry_ltb (cfg : config) (x y : entry) : bool :=
+  let '(t1, (a1, n1, v1)) := x in let '(t2, (a2, n2, v2)) := y in
+  (t1 <? t2) || ((t1 =? t2) &&
+    ((c_arank cfg a1 <? c_arank cfg a2) || ((c_arank cfg a1 =? c_arank cfg a2) &&
+      ((c_nrank cfg n1 <? c_nrank cfg n2) || ((c_nrank cfg n1 =? c_nrank cfg n2) &&
+        (c_vrank cfg v1 <? c_vrank cfg v2)))))).
+Fixpoint insert_entry (cfg : config) (x : entry) (l : list entry) : list entry :=
+  match l with
+  | [] => [x]
+  | y :: t => if entry_ltb cfg y x then y :: insert_entry cfg x t else x :: l
+  end.
+Definition sort_entries (cfg : config) (l : list entry) : list entry :=
+  fold_right (insert_entry cfg) [] l.
+
+Definition due (t : Z) (q : list entry) : list entry := filter (fun x => fst x <? t) q.
+Definition sweep (cfg : config) (limit : Z) (s : state) : state :=
+  sweep_loop limit 0 (sort_entries cfg (due (s_now s) (s_queue s))) s.
+
+(** ** Lookups *)
+(** AccountsByAttribute / the AttributeAccounts query, restricted to a finite universe of accounts *)
+Definition accounts_by_attribute (s : state) (name : string) (universe : list N) : list N :=
+  filter (fun a => 0 <? s_cnt s (ank name) a) universe.
+
+(** the gRPC queries' filter: an attribute whose expiration lies before the block time is not
+    returned (ctx.BlockTime().After(expiration)) *)
+Definition live (now : Z) (r : attr) : bool :=
+  match a_exp r with Some e => negb (e <? now) | None => true end.
+Definition q_attributes (s : state) (a : N) : list attr :=
+  filter (fun r => N.eqb (a_acct r) a && live (s_now s) r) (s_recs s).
+Definition q_attribute (s : state) (a : N) (name : string) : list attr :=
+  filter (fun r => N.eqb (a_acct r) a && String.eqb (ank (a_name r)) (ank name) && live (s_now s) r)
+         (s_recs s).
+(* strings.HasSuffix *)
+Definition has_suffix (s suf : string) : bool :=
+  (String.length suf <=? String.length s)%nat &&
+  String.eqb (substring (String.length s - String.length suf) (String.length suf) s) suf.
+Definition q_scan (s : state) (a : N) (suf : string) : list attr :=
+  filter (fun r => N.eqb (a_acct r) a && has_suffix (a_name r) suf && live (s_now s) r) (s_recs s).
+(* GetAccountData: the first accountdata attribute in store order (by value hash); [Some 0] = "" *)
+Definition min_by_vrank (cfg : config) (l : list attr) : option attr :=
+  fold_left (fun best r => match best with
+                           | None => Some r
+                           | Some b => if c_vrank cfg (a_val r) <? c_vrank cfg (a_val b) then Some r else Some b
+                           end) l None.
+Definition q_account_data (cfg : config) (s : state) (a : N) : option Z :=
+  match get_attributes s a account_data_name with
+  | None => None
+  | Some l => match min_by_vrank cfg l with Some r => Some (a_val r) | None => Some 0 end
+  end.
 
 (** ** Messages and blocks *)
 Inductive op :=
-| OBind (n o : Z)                               (* MsgBindName signed by the parent's owner *)
-| OModifyName (auth n o : Z)                    (* MsgModifyName: transfer name n to o *)
-| ODeleteName (c n : Z)                         (* MsgDeleteName signed by c *)
-| OAdd (c a n v ty : Z) (e : option Z) (sp : Z) (* MsgAddAttribute: caller, account, name, value, type, expiration, spelling *)
-| OUpdate (c a n ov oty nv nty sp : Z)          (* MsgUpdateAttribute *)
-| OUpdateExp (c a n v : Z) (e : option Z) (sp : Z) (* MsgUpdateAttributeExpiration *)
-| ODelete (c a n sp : Z)                        (* MsgDeleteAttribute *)
-| ODeleteDistinct (c a n v sp : Z)              (* MsgDeleteDistinctAttribute *)
-| OPurge (c n : Z)                              (* keeper.PurgeAttribute called directly *)
-| OBlock (dt : Z).                              (* block time += dt; BeginBlocker *)
+| OBind (parent : string) (signer : N) (child : string) (owner : N) (restr : bool)  (* MsgBindNameRequest *)
+| OModifyName (signer : N) (name : string) (owner : N) (restr : bool)               (* MsgModifyNameRequest *)
+| ODeleteName (name : string) (signer : N)                                          (* MsgDeleteNameRequest *)
+| OAdd (c a : N) (name : string) (v ty : Z) (e : option Z)     (* MsgAddAttribute: caller, account, name, value, type, expiration *)
+| OUpdate (c a : N) (name : string) (ov oty nv nty : Z)        (* MsgUpdateAttribute *)
+| OUpdateExp (c a : N) (name : string) (v : Z) (e : option Z)  (* MsgUpdateAttributeExpiration *)
+| ODelete (c a : N) (name : string)                            (* MsgDeleteAttribute *)
+| ODeleteDistinct (c a : N) (name : string) (v : Z)            (* MsgDeleteDistinctAttribute *)
+| OPurge (c : N) (name : string)                               (* keeper.PurgeAttribute called directly *)
+| OSetAccountData (via_msg : bool) (a : N) (v : Z)             (* MsgSetAccountData / keeper.SetAccountData *)
+| OSetMaxLen (auth : N) (m : Z)                                (* MsgUpdateParams *)
+| OBlock (dt limit : Z).                                       (* block time += dt; DeleteExpiredAttributes(limit) *)
 
-Definition upd_owner (f : Z -> option Z) (n : Z) (o : option Z) : Z -> option Z :=
-  fun n' => if n' =? n then o else f n'.
-
-Definition exec (s : state) (o : op) : option state :=
+Definition exec (cfg : config) (s : state) (o : op) : option state :=
   match o with
-  | OBind n ow =>
-      if name_exists s n then None else Some (set_owner s (upd_owner (s_owner s) n (Some ow)))
-  | OModifyName auth n ow =>
-      match s_owner s n with
-      | Some cur => if (auth =? gov) || (auth =? cur)
-                    then Some (set_owner s (upd_owner (s_owner s) n (Some ow))) else None
+  | OBind parent signer child owner restr =>
+      match bind idh (c_params cfg) (s_names s) parent signer child owner restr with
+      | Some ns => Some (set_names s ns)
       | None => None
       end
-  | ODeleteName c n =>
-      if resolves s n c
-      then purge_attribute (set_owner s (upd_owner (s_owner s) n None)) c n
-      else None
-  | OAdd c a n v ty e _ =>
-      set_attribute s c {| a_acct := a; a_name := n; a_val := v; a_type := ty; a_exp := e |}
-  | OUpdate c a n ov oty nv nty sp => update_attribute s c a n ov oty nv nty sp
-  | OUpdateExp c a n v e _ => update_expiration s c a n v e
-  | ODelete c a n sp => delete_attribute s c a n None sp
-  | ODeleteDistinct c a n v sp => delete_attribute s c a n (Some v) sp
-  | OPurge c n => purge_attribute s c n
-  | OBlock dt => if dt <? 0 then None else Some (sweep (set_now s (s_now s + dt)))
+  | OModifyName signer name owner restr =>
+      match modify idh (c_params cfg) (s_names s) signer name owner restr with
+      | Some ns => Some (set_names s ns)
+      | None => None
+      end
+  | ODeleteName name signer =>
+      (* DeleteName: ... DeleteRecord(name); attrKeeper.PurgeAttribute(ctx, name, address) with
+         name = Normalize(msg.Record.Name) *)
+      match delete idh (c_params cfg) (s_names s) name signer, norm cfg name with
+      | Some ns, Some n => purge_attribute cfg (set_names s ns) signer n
+      | _, _ => None
+      end
+  | OAdd c a name v ty e => set_attribute cfg s c a name v ty e
+  | OUpdate c a name ov oty nv nty => update_attribute cfg s c a name ov oty nv nty
+  | OUpdateExp c a name v e => update_expiration cfg s c a name v e
+  | ODelete c a name => delete_attribute cfg s c a name None
+  | ODeleteDistinct c a name v => delete_attribute cfg s c a name (Some v)
+  | OPurge c name => purge_attribute cfg s c name
+  | OSetAccountData via_msg a v => set_account_data cfg s via_msg a v
+  | OSetMaxLen auth m => if N.eqb auth gov then Some (set_maxlen s m) else None
+  | OBlock dt limit => if dt <? 0 then None else Some (sweep cfg limit (set_now s (s_now s + dt)))
   end.
 
 (** [step] returns the new state and whether the operation was accepted. *)
-Definition step (s : state) (o : op) : state * bool :=
-  match exec s o with Some s' => (s', true) | None => (s, false) end.
+Definition step (cfg : config) (s : state) (o : op) : state * bool :=
+  match exec cfg s o with Some s' => (s', true) | None => (s, false) end.
 
-Definition run_from (s : state) (ops : list op) : state :=
-  fold_left (fun st o => fst (step st o)) ops s.
-Definition run (t0 : Z) (accts : Z -> bool) (ops : list op) : state := run_from (init t0 accts) ops.
+Definition run_from (cfg : config) (s : state) (ops : list op) : state :=
+  fold_left (fun st o => fst (step cfg st o)) ops s.
+Definition run (cfg : config) (t0 : Z) (ops : list op) : state := run_from cfg (init cfg t0) ops.
 
-(** Number of records of name [n] on account [a]. *)
-Definition count_recs (n a : Z) (recs : list attr) : Z :=
-  Z.of_nat (length (filter (fun r => (a_name r =? n) && (a_acct r =? a)) recs)).
+(** Number of records of name key [n] on account [a]. *)
+Definition count_recs (n : string) (a : N) (recs : list attr) : Z :=
+  Z.of_nat (List.length (filter (fun r => String.eqb (ank (a_name r)) n && N.eqb (a_acct r) a) recs)).
+
+(** ** The specified notion of ownership: the owner of name [n] is the address in the name
+    record whose STORED name is [n] (not merely a record found under [n]'s key). *)
+Definition owner_of (s : state) (n : string) : option N :=
+  match get_record idh (s_names s) n with
+  | Some r => if String.eqb (r_name r) n then Some (r_addr r) else None
+  | None => None
+  end.
